@@ -62,19 +62,24 @@ def gen_history(rng, ctx):
     addr_pool = [rng.getrandbits(44) | 0x1000 for _ in range(rng.randrange(1, 7))]
     addr_pool += [a + 1 for a in addr_pool[:2]] + [a - 1 for a in addr_pool[:1]]
     sc_pool = [rng.getrandbits(44) | (1 << 50) for _ in range(3)]     # shared-cache addresses: disjoint from the others
+    uuid_pool = [rng.randbytes(16) for _ in range(3)]
+
+    def pick_uuid():
+        # the same image (uuid) may be mapped at several addresses (other processes, other slides)
+        return rng.choice(uuid_pool) if rng.random() < 0.4 else rng.randbytes(16)
     ann = []      # announcer thread program: [(abstract, tag)]
     for _ in range(rng.randrange(0, 7)):
         if rng.random() < 0.6:
-            a, u = rng.choice(addr_pool), rng.randbytes(16)
+            a, u = rng.choice(addr_pool), pick_uuid()
             ann.append((H.uuid_record('DYLD_uuid_map_a', u, a), ('map', a, u)))
         else:
             nested, sc = [], []
             for _ in range(rng.randrange(0, 4)):
                 if rng.random() < 0.6:
-                    a, u = rng.choice(addr_pool), rng.randbytes(16)
+                    a, u = rng.choice(addr_pool), pick_uuid()
                     nested.append((H.uuid_record('DYLD_uuid_map_a', u, a), ('map', a, u)))
                 else:
-                    a, u = rng.choice(sc_pool), rng.randbytes(16)
+                    a, u = rng.choice(sc_pool), pick_uuid()
                     nested.append((H.uuid_record('DYLD_uuid_shared_cache_a', u, a), None))
                     sc.append((a, u))
             seq = H.launch(rng.getrandbits(40))
